@@ -273,6 +273,9 @@ def run(ctx):
     g = ctx.facts.getters()
     ctx.clauses.append("relator scans: both exits report (row reached, letters consumed); scan_both_ways = (head with full budget, tail with the rest, gap, w[i]) (T9)")
     relator_scan_shape(ctx, "T9-relator-scan", g)
+    # coset_table works with expanded_relator_set(rels) too: the relators kept are exactly the non-empty ones, all rotations and inverses (shared with C12)
+    from . import c12
+    c12.relators_unmodified(ctx, g)
     ctx.clauses.append("coset table storage: rows of 2n + 1 cells, letter g in column g + n for get() and set() alike, -1 = undefined (T4, expressions evaluated)")
     coset_table_layout(ctx, "T4-table-layout", g)
     ct = ctx.body("fpgroups::cosets::coset_table")
